@@ -406,6 +406,9 @@ int main(int argc, char **argv)
         h_destroy(t);
         return 0;
     }
+    /* line-buffered answers: when cbuf.c aborts (assertion, sanitizer, fatal) the answers of the ops
+     * before the fatal one have reached the checker, so the replay names the op that crashed */
+    setvbuf(stdout, NULL, _IOLBF, 1 << 16);
     while (fgets(line, sizeof(line), stdin)) {
         char op[32];
         int nf;
@@ -472,16 +475,18 @@ int main(int argc, char **argv)
         } else if (!strcmp(op, "refused")) {
             /* calls the entry points must refuse (EINVAL) without touching the buffer -- and with the
              * out-parameter SET (0 bytes overwritten): 0 write(NULL source), 1 write(len -1),
-             * 2 write_from_fd(fd -1), 3 copy(src == dst), 4 move(src == dst), 5 copy(src == dst, len -1);
+             * 2 write_from_fd(fd -1), 3 copy(src == dst), 4 move(src == dst), 5 copy(src == dst, len -1), 6 write_line(NULL);
              * write_from_fd(len -2) is `wfd -2` */
             int k = atoi(a1), nd = ND_POISON, n, e;
             unsigned char tmp[4] = { 'r', 'e', 'f', 0 };
+            if (k < 0 || k > 6) { printf("bad-op\n"); continue; }
             errno = 0;
             n = k == 0 ? CALL1(cbuf_write(cb, NULL, 3, NDP(nd)))
               : k == 1 ? CALL1(cbuf_write(cb, tmp, -1, NDP(nd)))
               : k == 2 ? CALL1(cbuf_write_from_fd(cb, -1, 3, NDP(nd)))
               : k == 3 ? CALL2(cbuf_copy(cb, cb, 2, NDP(nd)))
               : k == 4 ? CALL2(cbuf_move(cb, cb, -1, NDP(nd)))
+              : k == 6 ? CALL1(cbuf_write_line(cb, NULL, NDP(nd)))
               :          CALL2(cbuf_copy(cb, cb, -1, NDP(nd)));
             e = errno;
             put_ret_nd(n, nd);
